@@ -240,6 +240,12 @@ func c14Histories(w *Worker) {
 			solo[c] = out
 		}
 	}
+	// two more history elements: generation calls that FAIL (a lexical error; an undefined symbol).
+	// They have no output of their own but must not influence later calls.
+	broken := []string{"%token TA\n%%\nS : TA @ ;\n", "%token TA\n%start S\n%%\nS : TA Undefined_Sym ;\n"}
+	for bi := range broken {
+		calls = append(calls, call{g: -1 - bi, v: gen.Go})
+	}
 	depth := 2
 	if w.Thorough() {
 		depth = 3
@@ -251,11 +257,18 @@ func c14Histories(w *Worker) {
 			// replay the whole history, compare the last call
 			var out []byte
 			for _, c := range h {
-				out, _ = c14Gen(w, gen.Decorate(specs[c.g], nil, gen.UseAll).Source(c.v, "p"), c.v, ygo.Options{})
+				if c.g < 0 {
+					c14Gen(w, broken[-1-c.g], c.v, ygo.Options{})
+					out = nil
+				} else {
+					out, _ = c14Gen(w, gen.Decorate(specs[c.g], nil, gen.UseAll).Source(c.v, "p"), c.v, ygo.Options{})
+				}
 				w.Count("evaluations", 1)
 			}
 			last := h[len(h)-1]
-			if !bytes.Equal(out, solo[last]) {
+			if last.g < 0 {
+				// nothing to compare for a failing last call; longer histories continue from here
+			} else if !bytes.Equal(out, solo[last]) {
 				w.Violate(fmt.Sprintf("C14|history|%v", h), fmt.Sprintf("generation call %v gives a different file after the calls %v than alone: %s", last, h[:len(h)-1], firstDiff(solo[last], out)),
 					&c14Case{Origin: "history", Spec: specs[last.g], Variant: last.v}, map[string]interface{}{"history": fmt.Sprint(h)})
 				return
